@@ -1,5 +1,6 @@
 import Pk.PredictLaws
 import Pk.FitLaws
+import Pk.Diverge
 /-! # C07 — Trajectory prediction is the iterated one-step prediction
 
 Theorems about the executable model of `predict` / `predict_trajectory` (`Pk/Predict.lean`) for every
@@ -139,5 +140,71 @@ theorem C07_predict_def (X : Ep α) :
           ((Stage.tr (rowFn ops ok) p.s X).map fun r =>
             ⟨matVec p.K (r.x ++ r.u), zeros (Stage.outW (rowFn ops ok) p.s p.w).2⟩)).map (·.x) := by
   simp [predictEp, retractStateEp, Pipe.wOut, List.map_map, Function.comp_def]
+
+/-! ### the divergence branch ("crash index", NaN fill) -/
+section divergence
+open Pk.Diverge
+
+/-- the step of the re-lifting loop of the model, as a function of the rows known so far -/
+def reliftStep (U : List (List α)) : Nat → List (List α) → List α := fun _ X =>
+  let k := X.length
+  let m := p.m
+  let Xw := window (k - m) m X
+  let Uw := window (k - m) m U
+  let Th := liftStateEp (rowFn ops ok) p Xw
+  let Up := liftInputEp (rowFn ops ok) p Xw Uw
+  let Thk := List.zipWith (fun t u => matVec p.K (t ++ u)) Th Up
+  (retractStateEp (rowFn ops ok) p Thk).getLast?.getD []
+
+/-- the loop skeleton of `Pk/Diverge.lean` with this step IS the modelled re-lifting loop -/
+theorem trajRelift_eq_loopT (U : List (List α)) (fuel : Nat) (X : List (List α)) :
+    trajRelift (rowFn ops ok) p U fuel X = loopT (reliftStep ops ok p U) fuel X := by
+  induction fuel generalizing X with
+  | zero => rfl
+  | succ f ih =>
+    unfold trajRelift loopT
+    exact ih _
+
+/-- **a diverging prediction still returns one row per input sample** -/
+theorem C07_divergence_rows {β : Type} (step : Nat → List β → Option β) (m n : Nat) (x0 : List β)
+    (h0 : x0.length = m) (hm : m ≤ n) : (episode step m n x0).length = n :=
+  episode_length step m n x0 h0 hm
+
+/-- **the rows reported before the crash index are the iterated one-step predictions**: whenever the step that may
+diverge agrees with the model's step where it does not, every non-NaN row of the episode is the row of
+`trajStatesRelift` (for which `C07_step`, `C07_ic` hold) -/
+theorem C07_divergence_prefix (U X0 : List (List α)) (step : Nat → List (List α) → Option (List α))
+    (h : ∀ k X r, step k X = some r → r = reliftStep ops ok p U k X) (i : Nat) (r : List α)
+    (hi : (episode step p.m U.length X0)[i]? = some (some r)) :
+    (trajStatesRelift (rowFn ops ok) p X0 U)[i]? = some r := by
+  unfold trajStatesRelift
+  rw [trajRelift_eq_loopT]
+  exact episode_prefix step (reliftStep ops ok p U) h p.m U.length X0 i r hi
+
+/-- **NaN exactly from the crash index on**, and the crash index is the index of the last row computed before the
+diverging step -/
+theorem C07_divergence_pattern {β : Type} (step : Nat → List β → Option β) (m n : Nat) (x0 : List β)
+    (h0 : x0.length = m) (hm : m ≤ n) :
+    (episode step m n x0).map Option.isNone = nanPattern n (loop step (n - m) x0).2 := by
+  unfold episode
+  apply fill_pattern
+  · intro h
+    have := loop_length step (n - m) x0 h
+    omega
+  · intro c h
+    have hc := loop_crash step (n - m) x0 c h
+    have hg := loop_grows step (n - m) x0
+    omega
+
+/-- **a divergence never leaks into another episode of the same call** -/
+theorem C07_divergence_local {β : Type} (pre post : List (Nat × (Nat → List β → Option β) × Nat × Nat × List β))
+    (e : Nat × (Nat → List β → Option β) × Nat × Nat × List β) :
+    (call (pre ++ e :: post))[pre.length]? = some (e.1, episode e.2.1 e.2.2.1 e.2.2.2.1 e.2.2.2.2) :=
+  call_local pre post e
+
+/-- non-vacuity: a three-row episode whose third step diverges keeps one row and reports two NaN rows -/
+example : episode (fun k (_ : List Nat) => if k = 2 then none else some k) 1 3 [7] = [some 7, none, none] := by decide
+
+end divergence
 
 end Pk.C07
